@@ -738,7 +738,12 @@ def inventory(fn, rule, items, metas, root=None, fixed=None, required=True, orde
                     fn.cx.documented.add(id(ds_[0].ast))
                     _document_inlined(fn, ds_[0].ast, 1)
         _roles_not_redefined(fn, rule, best['matched'], best['binding'], root, extra_defs_ok, tuple(fixed or ()))
-        context_obligations(fn, rule, best['matched'], best['binding'], root, best.get('conj') or {})
+        # in the recorded conditions a local is named after its role; metavariables of one alias group (two loops
+        # that may or may not share their loop variable) count as one role
+        gb = {}
+        for m_, v_ in best['binding'].items():
+            gb.setdefault(mnames.get(m_, m_) if not m_.startswith('__') else m_, v_)
+        context_obligations(fn, rule, best['matched'], gb, root, best.get('conj') or {})
         out = dict(best['binding'])
         out['__matched__'] = dict(best['matched'])
         return out
